@@ -154,7 +154,8 @@ class RsCore:
 # ------------------------------------------------------------------------------------------------ groups
 def hidden_state(rnd: random.Random) -> Dict[str, Any]:
     return {"temps": [rnd.choice([0, 0xFFFFFF, 0xFF, rnd.getrandbits(24)]) for _ in range(14)],
-            "call_pages": [rnd.choice([0x00000, 0x10000, 0xF0000]) for _ in range(rnd.randint(0, 3))]}
+            "call_pages": [rnd.choice([0x00000, 0x10000, 0xF0000]) for _ in range(rnd.randint(0, 3))],
+            "flagwise": True}        # ... and the flags written once more one by one (through the FC / FZ aliases)
 
 
 def history_program(en, encs, rnd: random.Random, at: int) -> Tuple[Dict[str, int], List[List[int]], int]:
@@ -267,17 +268,18 @@ def _job(arg):
                                          "fin": fin, "huge": 0, "nw": 0})
                     steps, fin, _ = core.fresh(regs, mem, hidden=hidden_state(rnd))
                     add(gid, kind, core.impl, "temps", _res(steps[0] if steps else None, fin), ref, rep)
-                    for v in ("after-program", "after-program-same-address"):
-                        h = history_program(en, hist_encs, rnd, at if v.endswith("address") else rnd.choice([0x6000, 0x2FFF0, 0x90000]))
-                        steps, fin = core.after_history(h, regs, mem)
-                        add(gid, kind, core.impl, v, _res(steps[0] if steps else None, fin), ref, rep)
                     # a sibling encoding - the same bytes except the last one - executed at the SAME address on the same core just
-                    # before (a decode cache keyed by too few bytes, or by the address alone, would hand out the sibling)
+                    # before (a decode cache keyed by too few bytes, or by the address alone, would hand out the sibling); this comes BEFORE
+                    # the probe itself is ever executed on the long-lived core, so that no cache can already hold the probe's own decode
                     if len(enc) >= 2:
                         sib = enc[:-1] + bytes([enc[-1] ^ rnd.choice([0x01, 0x10, 0x80, 0xFF])])
                         sregs, smem = en.build_case(sib, st)
                         steps, fin = core.after_history((sregs, smem, 1), regs, mem)
                         add(gid, kind, core.impl, "after-sibling-at-same-address", _res(steps[0] if steps else None, fin), ref, rep)
+                    for v in ("after-program", "after-program-same-address"):
+                        h = history_program(en, hist_encs, rnd, at if v.endswith("address") else rnd.choice([0x6000, 0x2FFF0, 0x90000]))
+                        steps, fin = core.after_history(h, regs, mem)
+                        add(gid, kind, core.impl, v, _res(steps[0] if steps else None, fin), ref, rep)
                     if len(late) < 400:
                         late.append((gid, core, regs, mem, ref, rep))
             else:
